@@ -9,7 +9,8 @@ import numpy as np
 
 SHAPES_1D = [(4,), (5,), (6,), (7,)]
 SHAPES_2D = [(3, 3), (3, 4), (4, 4), (4, 5), (5, 5), (6, 6)]
-SHAPES_3D = [(2, 2, 2), (2, 3, 3), (3, 3, 3), (3, 4, 4), (4, 4, 4)]
+# 3-D shapes include arrays with an axis of length 1 (a single slice is still a 3-D input: cc3d, 26-connectivity)
+SHAPES_3D = [(2, 2, 2), (2, 3, 3), (3, 3, 3), (3, 4, 4), (4, 4, 4), (1, 4, 4), (4, 1, 4), (3, 5, 1), (1, 1, 6)]
 ALL_SHAPES = SHAPES_1D + SHAPES_2D + SHAPES_3D
 
 
